@@ -15,7 +15,7 @@ set_option hygiene false in
 /-- the fields of `KInv` after a controller burst that ends the controller (`self.proc` untouched) -/
 macro "ctl_end_leaf" : tactic => `(tactic| (
   intro hmono
-  refine ⟨⟨?_, ?_, ?_, ?_, ?_, ?_, ?_, ?_, ?_, ?_, ?_, ?_, ?_⟩, ?_⟩
+  refine ⟨⟨?_, ?_, ?_, ?_, ?_, ?_, ?_, ?_, ?_, ?_, ?_, ?_, ?_, ?_⟩, ?_⟩
   · exact wf_push1 hwf.1 _ rfl rfl rfl rfl (le_refl _)
   · simp only [A.entries, CPhase.entries, List.nil_append]
     perm_count hrest
@@ -47,13 +47,14 @@ macro "ctl_end_leaf" : tactic => `(tactic| (
   · tsimp [hc3]
   · tsimp [hc4]
   · tsimp [hc5]
+  · tsimp [hc6]
   · simp [histOf_push]))
 
 set_option hygiene false in
 /-- the fields of `KInv` after a controller burst that ends in the next sleep (`self.proc` untouched) -/
 macro "ctl_wait_leaf" : tactic => `(tactic| (
   intro hmono
-  refine ⟨⟨?_, ?_, ?_, ?_, ?_, ?_, ?_, ?_, ?_, ?_, ?_, ?_, ?_⟩, ?_⟩
+  refine ⟨⟨?_, ?_, ?_, ?_, ?_, ?_, ?_, ?_, ?_, ?_, ?_, ?_, ?_, ?_⟩, ?_⟩
   · exact wf_push1 hwf.1 _ rfl rfl rfl rfl (by show q.time ≤ q.time + gap; linarith)
   · simp only [A.entries, CPhase.entries]
     perm_count hrest
@@ -85,6 +86,7 @@ macro "ctl_wait_leaf" : tactic => `(tactic| (
   · tsimp [hc3]
   · tsimp [hc4]
   · tsimp [hc5]
+  · tsimp [hc6]
   · simp [histOf_push]))
 
 /-- the controller's `Initialize` event: it sleeps until its first call, or returns at once -/
@@ -102,7 +104,7 @@ theorem kstep_ctlInit (fuel : Nat) (hk : KInv s a) {sc : List (ℚ × Op)} (hctl
   have hgs : q.ev < s.events.size := KState.lt_of_cbs hcbs
   have hgc : a.cp < s.events.size := KState.lt_of_cbs hpc
   have hwf := openEvent_wf s q rest hk.wf hp
-  have hc0 := hk.c0; have hc1 := hk.c1; have hc2 := hk.c2; have hc3 := hk.c3; have hc4 := hk.c4; have hc5 := hk.c5
+  have hc0 := hk.c0; have hc1 := hk.c1; have hc2 := hk.c2; have hc3 := hk.c3; have hc4 := hk.c4; have hc5 := hk.c5; have hc6 := hk.c6
   obtain ⟨nph, nold, nctl, nnoop, dph, dold, dctl⟩ := (ids_nodup_iff a).mp hk.nd
   have hlt := hk.idlt
   have hnd := hk.nd
@@ -140,7 +142,7 @@ theorem kstep_ctlStop (fuel : Nat) (hk : KInv s a) {sc : List (ℚ × Op)} (hctl
   have hgs : q.ev < s.events.size := KState.lt_of_cbs hcbs
   have hgc : a.cp < s.events.size := KState.lt_of_cbs hpc
   have hwf := openEvent_wf s q rest hk.wf hp
-  have hc0 := hk.c0; have hc1 := hk.c1; have hc2 := hk.c2; have hc3 := hk.c3; have hc4 := hk.c4; have hc5 := hk.c5
+  have hc0 := hk.c0; have hc1 := hk.c1; have hc2 := hk.c2; have hc3 := hk.c3; have hc4 := hk.c4; have hc5 := hk.c5; have hc6 := hk.c6
   obtain ⟨nph, nold, nctl, nnoop, dph, dold, dctl⟩ := (ids_nodup_iff a).mp hk.nd
   have hlt := hk.idlt
   have hnd := hk.nd
@@ -188,7 +190,7 @@ theorem kstep_ctlRestartDead (fuel : Nat) (hk : KInv s a) {sc : List (ℚ × Op)
   have hgs : q.ev < s.events.size := KState.lt_of_cbs hcbs
   have hgc : a.cp < s.events.size := KState.lt_of_cbs hpc
   have hwf := openEvent_wf s q rest hk.wf hp
-  have hc0 := hk.c0; have hc1 := hk.c1; have hc2 := hk.c2; have hc3 := hk.c3; have hc4 := hk.c4; have hc5 := hk.c5
+  have hc0 := hk.c0; have hc1 := hk.c1; have hc2 := hk.c2; have hc3 := hk.c3; have hc4 := hk.c4; have hc5 := hk.c5; have hc6 := hk.c6
   obtain ⟨nph, nold, nctl, nnoop, dph, dold, dctl⟩ := (ids_nodup_iff a).mp hk.nd
   have hlt := hk.idlt
   have hnd := hk.nd
@@ -244,7 +246,7 @@ theorem kstep_ctlRestartAlive (fuel : Nat) (hk : KInv s a) {sc : List (ℚ × Op
   have hgd : a.cur < s.events.size := KState.lt_of_cbs hcc
   have hgt : t < s.events.size := hte.lt
   have hwf := openEvent_wf s q rest hk.wf hp
-  have hc0 := hk.c0; have hc1 := hk.c1; have hc2 := hk.c2; have hc3 := hk.c3; have hc4 := hk.c4; have hc5 := hk.c5
+  have hc0 := hk.c0; have hc1 := hk.c1; have hc2 := hk.c2; have hc3 := hk.c3; have hc4 := hk.c4; have hc5 := hk.c5; have hc6 := hk.c6
   obtain ⟨nph, nold, nctl, nnoop, dph, dold, dctl⟩ := (ids_nodup_iff a).mp hk.nd
   have hlt := hk.idlt
   have hnd := hk.nd
@@ -264,8 +266,8 @@ theorem kstep_ctlRestartAlive (fuel : Nat) (hk : KInv s a) {sc : List (ℚ × Op
   cases sc with
   | nil =>
     tsimp [hgs, hgc, hgd, hkind, hcbs, hout, Nat.ne_of_lt hgs, Nat.ne_of_lt hgc, Nat.ne_of_lt hgd, hpk, hpc, hpo, hne, Ne.symm hne, ctlNext,
-      hc4, hck, hco, hnq, Ne.symm hnq, hncp, Ne.symm hncp, hact, hF, hFc, hFd, hFt]
-    refine ⟨⟨?_, ?_, ?_, ?_, ?_, ?_, ?_, ?_, ?_, ?_, ?_, ?_, ?_⟩, ?_⟩
+      hc4, hc6, hold, oldStat, hck, hco, hnq, Ne.symm hnq, hncp, Ne.symm hncp, hact, hF, hFc, hFd, hFt]
+    refine ⟨⟨?_, ?_, ?_, ?_, ?_, ?_, ?_, ?_, ?_, ?_, ?_, ?_, ?_, ?_⟩, ?_⟩
     · exact wf_push3 hwf.1 _ _ _ rfl rfl rfl rfl rfl rfl (le_refl _) (le_refl _) (le_refl _)
     · simp only [A.entries, TPhase.entries, oldEntries, Old.entries, CPhase.entries, List.nil_append]
       perm_count hrest
@@ -300,13 +302,14 @@ theorem kstep_ctlRestartAlive (fuel : Nat) (hk : KInv s a) {sc : List (ℚ × Op
     · tsimp [hc3]
     · tsimp [hc4]
     · tsimp [hc5]
+    · tsimp [hc6, oldStat, hold]
     · simp [histOf_push]
   | cons x sc =>
     obtain ⟨gap, op⟩ := x
     have hgap : 0 ≤ gap := (hg (gap, op) (by simp))
     tsimp [hgs, hgc, hgd, hkind, hcbs, hout, Nat.ne_of_lt hgs, Nat.ne_of_lt hgc, Nat.ne_of_lt hgd, hpk, hpc, hpo, hne, Ne.symm hne, ctlNext,
-      hc4, hck, hco, hnq, Ne.symm hnq, hncp, Ne.symm hncp, hact, hF, hFc, hFd, hFt, hgap]
-    refine ⟨⟨?_, ?_, ?_, ?_, ?_, ?_, ?_, ?_, ?_, ?_, ?_, ?_, ?_⟩, ?_⟩
+      hc4, hc6, hold, oldStat, hck, hco, hnq, Ne.symm hnq, hncp, Ne.symm hncp, hact, hF, hFc, hFd, hFt, hgap]
+    refine ⟨⟨?_, ?_, ?_, ?_, ?_, ?_, ?_, ?_, ?_, ?_, ?_, ?_, ?_, ?_⟩, ?_⟩
     · exact wf_push3 hwf.1 _ _ _ rfl rfl rfl rfl rfl rfl (by show q.time ≤ q.time + gap; linarith) (le_refl _) (le_refl _)
     · simp only [A.entries, TPhase.entries, oldEntries, Old.entries, CPhase.entries, List.nil_append]
       perm_count hrest
@@ -341,6 +344,7 @@ theorem kstep_ctlRestartAlive (fuel : Nat) (hk : KInv s a) {sc : List (ℚ × Op
     · tsimp [hc3]
     · tsimp [hc4]
     · tsimp [hc5]
+    · tsimp [hc6, oldStat, hold]
     · simp [histOf_push]
 
 end TimerK
